@@ -2,6 +2,7 @@ import Clem.Proofs.Par
 import Clem.Proofs.ParT1
 import Clem.Proofs.ParT2
 import Clem.Proofs.ParT2Walk
+import Clem.Proofs.ParT2Dedup
 
 /-!
 # C09 — Stage-level parallelism is indistinguishable from sequential execution
@@ -276,24 +277,6 @@ theorem C09_T2_single_tier_par_eq_seq {α : Type} (le : Hit α → Hit α → Bo
     rw [htop, ← hfill]
     simp only [ite_self]
 
-/-- `T2_par_eq_seq_partial`: the code ranks inside a shard by the raw score (`rawLe`) and across
-shards by `_qscore` (`hitLe q`).  Whenever the two orders agree on the candidates (no two scores
-inside one `1e-9` quantum), one tier of the fan-out equals the sequential ranking. -/
-theorem C09_T2_par_eq_seq_partial {α : Type} (q : α → Int) (lt : α → α → Bool)
-    (total : ∀ a b, rawLe lt a b = true ∨ rawLe lt b a = true)
-    (trans : ∀ a b c, rawLe lt a b = true → rawLe lt b c = true → rawLe lt a c = true)
-    (antisymm : ∀ a b, rawLe lt a b = true → rawLe lt b a = true → a = b)
-    (k : Nat) (hk : 1 ≤ k) (t : List Nat) (shards : List (List (Hit α)))
-    (hnd : (shards.flatten.map Hit.id).Nodup)
-    (hagree : ∀ a ∈ shards.flatten, ∀ b ∈ shards.flatten, hitLe q a b = rawLe lt a b) :
-    mergeTierHits (hitLe q) (k : Int) (shards.map (fun sh => [(t, topk (rawLe lt) k sh)])) [t]
-      = (topk (rawLe lt) k shards.flatten, [t]) := by
-  rw [← C09_T2_single_tier_par_eq_seq (rawLe lt) total trans antisymm k hk t shards hnd]
-  unfold mergeTierHits
-  simp only [mergeTiers, bucketOf_single]
-  rw [isort_congr (hitLe q) (rawLe lt) _ (fun a ha b hb =>
-        hagree a (mem_flatten_topk _ k shards ha) b (mem_flatten_topk _ k shards hb))]
-
 /-- **T2 fan-out = sequential walk, any number of tiers.**  `candSh sh t` are the hits of tier `t`
 among the episodes of shard `sh` (after the per-episode owner / recency / quarter / threshold
 filters), so the whole index's candidates for `t` are the concatenation over the shards
@@ -314,7 +297,61 @@ theorem C09_T2_walk_par_eq_seq {α σ : Type} (le : Hit α → Hit α → Bool)
   walk_par_eq_seq le total trans antisymm k tiers shards candSh hnd tiers (fun _ h => h) [] [] []
     (by simp; omega) (by simp)
 
-/-- `Merge_qscore_tie_witness` (negation of the unguarded statement): two shards holding `"b"`
+/-- `Merge_topk` with re-added ids: `_rank_by_cosine` keeps one entry per id before the cut
+(`rankU`); the top-k-unique of the union is obtained from the per-shard top-k-unique lists. -/
+theorem C09_Merge_topk_unique {α : Type} (le : Hit α → Hit α → Bool)
+    (total : ∀ a b, le a b = true ∨ le b a = true)
+    (trans : ∀ a b c, le a b = true → le b c = true → le a c = true)
+    (antisymm : ∀ a b, le a b = true → le b a = true → a = b)
+    (k : Nat) (shards : List (List (Hit α))) :
+    rankU le k (shards.map (rankU le k)).flatten = rankU le k shards.flatten :=
+  rankU_flatten_map le total trans antisymm k shards
+
+/-- **T2 fan-out = sequential walk, full strength** (after the three repairs): any tier list, any
+shards, any `k ≥ 1`, episode ids may repeat (re-added episodes).  Both sides rank with
+`_rank_by_cosine` = sort, one entry per id, cut to `k` (`rankU`). -/
+theorem C09_T2_walkU_par_eq_seq {α σ : Type} (le : Hit α → Hit α → Bool)
+    (total : ∀ a b, le a b = true ∨ le b a = true)
+    (trans : ∀ a b c, le a b = true → le b c = true → le a c = true)
+    (antisymm : ∀ a b, le a b = true → le b a = true → a = b)
+    (k : Nat) (hk : 1 ≤ k) (tiers : List (List Nat)) (shards : List σ)
+    (candSh : σ → List Nat → List (Hit α)) :
+    mergeTierHits le (k : Int) (shards.map (shardDictU le k tiers candSh)) tiers
+      = seqWalk (k : Int) (fun t => rankU le k (shards.map (fun sh => candSh sh t)).flatten)
+          tiers [] [] [] :=
+  walkU_par_eq_seq le total trans antisymm k tiers shards candSh tiers (fun _ h => h) [] [] []
+    (by simp; omega) (by simp)
+
+/-- `T2_par_eq_seq` (full strength; formerly `T2_par_eq_seq_partial`).  The shards and the
+sequential walk rank by the raw score (`rawLe`); the cross-shard merge ranks by
+`(-_qscore, -raw, id)` (`hitLeQR`).  For every quantiser `q` that is monotone in the score (rounding
+is), the two keys are the same order, so the fan-out equals the sequential tier walk for every tier
+list, shard count and `k ≥ 1` — without the "no two scores inside one quantum" guard and without
+the unique-id assumption. -/
+theorem C09_T2_par_eq_seq {α σ : Type} (q : α → Int) (lt : α → α → Bool)
+    (asym : ∀ x y, lt x y = true → lt y x = false)
+    (qmono : ∀ x y, lt x y = false → q y ≤ q x)
+    (total : ∀ a b, rawLe lt a b = true ∨ rawLe lt b a = true)
+    (trans : ∀ a b c, rawLe lt a b = true → rawLe lt b c = true → rawLe lt a c = true)
+    (antisymm : ∀ a b, rawLe lt a b = true → rawLe lt b a = true → a = b)
+    (k : Nat) (hk : 1 ≤ k) (tiers : List (List Nat)) (shards : List σ)
+    (candSh : σ → List Nat → List (Hit α)) :
+    mergeTierHits (hitLeQR q lt) (k : Int) (shards.map (shardDictU (rawLe lt) k tiers candSh)) tiers
+      = seqWalk (k : Int) (fun t => rankU (rawLe lt) k (shards.map (fun sh => candSh sh t)).flatten)
+          tiers [] [] [] := by
+  have hkey : hitLeQR q lt = rawLe lt := by
+    funext a b; exact hitLeQR_eq_rawLe q lt asym qmono a b
+  rw [hkey]
+  exact C09_T2_walkU_par_eq_seq (rawLe lt) total trans antisymm k hk tiers shards candSh
+
+/-- the repaired key really is the raw ranking key (monotone quantiser). -/
+theorem C09_Merge_key_is_rank_key {α : Type} (q : α → Int) (lt : α → α → Bool)
+    (asym : ∀ x y, lt x y = true → lt y x = false)
+    (qmono : ∀ x y, lt x y = false → q y ≤ q x) (a b : Hit α) :
+    hitLeQR q lt a b = rawLe lt a b := hitLeQR_eq_rawLe q lt asym qmono a b
+
+/-- `Merge_qscore_tie_witness` (kept as the regression witness for the *old* merge key `hitLe q` =
+`(-_qscore, id)`, repaired by fix C09_qscore-tie; with `hitLeQR` the same input agrees, see the example below): two shards holding `"b"`
 (score 1.25 quanta) and `"a"` (1.00 quanta); both round to quantum 1, so the merge orders them by
 id and keeps `"a"` at `k = 1`, while the sequential ranking keeps `"b"` (higher raw score). -/
 theorem C09_Merge_qscore_tie_witness :
@@ -324,6 +361,24 @@ theorem C09_Merge_qscore_tie_witness :
           (shards.map (fun sh => [(t, topk (rawLe (fun a b : Int => decide (a < b))) k sh)])) [t]
         ≠ (topk (rawLe (fun a b : Int => decide (a < b))) k shards.flatten, [t]) :=
   ⟨fun s => roundHalfEven s (-2), 1, [101], [[⟨[98], 5⟩], [⟨[97], 4⟩]], by decide, by decide, by decide⟩
+
+/-- the witness input under the repaired key: merge = sequential. -/
+example :
+    mergeTierHits (hitLeQR (fun s : Int => roundHalfEven s (-2)) (fun a b : Int => decide (a < b))) (1 : Int)
+        (([[⟨[98], 5⟩], [⟨[97], 4⟩]] : List (List (Hit Int))).map
+          (fun sh => [([101], topk (rawLe (fun a b : Int => decide (a < b))) 1 sh)])) [[101]]
+      = (topk (rawLe (fun a b : Int => decide (a < b))) 1 [⟨[98], 5⟩, ⟨[97], 4⟩], [[101]]) := by decide
+
+/-- re-added id: the regression input of the former duplicate-id finding (two copies of id 1, k = 2). -/
+example : mergeTierHits (hitLe (fun s : Int => s)) 2
+      ([[⟨[1], 9⟩, ⟨[1], 8⟩], [⟨[2], 5⟩, ⟨[3], 4⟩]].map
+        (shardDictU (hitLe (fun s : Int => s)) 2 [[10], [11]] (fun sh t => if t = [10] then sh.filter (fun h => h.score > 7) else sh)))
+      [[10], [11]]
+    = seqWalk 2 (fun t => rankU (hitLe (fun s : Int => s)) 2
+        (if t = [10] then [⟨[1], 9⟩, ⟨[1], 8⟩] else [⟨[1], 9⟩, ⟨[1], 8⟩, ⟨[2], 5⟩, ⟨[3], 4⟩])) [[10], [11]] [] [] []
+    ∧ (seqWalk 2 (fun t => rankU (hitLe (fun s : Int => s)) 2
+        (if t = [10] then [⟨[1], 9⟩, ⟨[1], 8⟩] else [⟨[1], 9⟩, ⟨[1], 8⟩, ⟨[2], 5⟩, ⟨[3], 4⟩])) [[10], [11]] [] [] []).1
+      = [⟨[1], 9⟩, ⟨[2], 5⟩] := by decide
 
 /-! non-vacuity -/
 example : iterShards [1, 2, 3, 4, 5, 6, 7] (some 3) = [[1, 2, 3], [4, 5, 6], [7]] := by decide
